@@ -92,11 +92,12 @@ TABLE = {
     'modularity_finetune_dir': [((BD5,), {}), ((WD5,), {'ci': np.array([2, 2, 5, 5, 5])})],
     'modularity_finetune_und_sign': [((SU4,), {}), ((SU4,), {'ci': np.array([4, 4, 8, 8]), 'qtype': 'gja'})],
     'modularity_probtune_und_sign': [((SU4,), {}), ((SU4,), {'p': 0.9, 'ci': np.array([1, 2, 1, 2])})],
-    'core_periphery_dir': [((BD5,), {}), ((BU5,), {})],
+    'core_periphery_dir': [((BD5,), {}), ((BU5,), {}), ((BD5,), {'C0': np.array([1, 0, 1, 0, 0]), 'gamma': 1.2})],
     'consensus_und': [((AGREE4, 0.3), {'reps': 4}), ((AGREE4, 0.05), {'reps': 3}), ((NOISY9, 0.2), {'reps': 2}),
                       ((NOISY9B, 0.35), {'reps': 2})],
     'rentian_scaling': [((BU5, XYZ5, 6), {})],
-    'nbs_bct': [((NBS_X, NBS_Y, 2.0), {'k': 4}), ((NBS_X, NBS_Y, 2.0), {'k': 3, 'paired': True})],
+    'nbs_bct': [((NBS_X, NBS_Y, 2.0), {'k': 4}), ((NBS_X, NBS_Y, 2.0), {'k': 3, 'paired': True}),
+                ((NBS_X, NBS_Y, 2.0), {'k': 3, 'tail': 'left'}), ((NBS_X, NBS_Y, 2.0), {'k': 3, 'tail': 'right', 'verbose': True})],
     'generative_model': [((np.zeros((5, 5)), DIST5, 4, np.array([-1.0])),
                           {'gamma': np.array([0.5]), 'model_type': 'matching'}),
                          ((np.zeros((5, 5)), DIST5, 4, np.array([-1.0])),
